@@ -4,7 +4,7 @@
    tools/props/C13.py: the real state-machine thread against the extracted model on the same scripts).
    Quantified over every environment: any receive script (any bytes, chunkings, errors, waits, stops),
    any open and send behaviour, any number of state-machine iterations.                          *)
-From RtrV Require Base.Mem Gen.GeneratedFsm2 Rtr.FsmTie Rtr.FsmTie2 Rtr.ExpiryFrames.
+From RtrV Require Base.Mem Gen.GeneratedFsm2 Rtr.FsmTie Rtr.FsmTie2 Rtr.ExpiryFrames Rtr.FsmTie3.
 From RtrV Require Import Base.CSem Gen.Generated Rtr.RtrModel Rtr.VersionProofs Rtr.VersionLocal.
 Local Open Scope Z_scope.
 
@@ -92,6 +92,11 @@ Proof. exact Rtr.FsmTie2.handle_error_tie_world. Qed.
 
 Example C13_fsm2_translator_clean : Gen.GeneratedFsm2.fsm2_translator_problems = [].
 Proof. reflexivity. Qed.
+
+(* the first-PDU rule itself lives in rtr_receive_pdu: translated on every run (Gen/GeneratedFsm3.v); tied to the model for every world
+   only on the paths before a header is read (C04_receive_pdu_translated_partial); the version rules are TESTED inside Coq on closed
+   scripts - live downgrade on the first PDU, version check afterwards, Error Reports exempt (evaluation, not a theorem) *)
+Example C13_receive_pdu_version_tests := Rtr.FsmTie3.recv_versions.
 
 Print Assumptions C13_initial.
 Print Assumptions C13_monotone.
